@@ -266,6 +266,12 @@ def new (mean : List α) (cov : Mat α) : Option (MVN α) :=
     let cdet ← M.det cov
     pure ⟨mean, cov, cinv, cdet, l⟩
 
+/-- `impl Mean for &MVN`: `&self.mean`. -/
+def meanOf (d : MVN α) : List α := d.mean
+
+/-- `impl Variance for &MVN`: `&self.covariance_matrix`. -/
+def varOf (d : MVN α) : Mat α := d.cov
+
 /-- `x.iter().enumerate().map(|(i, v)| v - self.mean[i]).collect()` (lengths already asserted equal). -/
 def xMinusMu (d : MVN α) (x : List α) : List α := List.zipWith (· - ·) x d.mean
 
